@@ -733,10 +733,13 @@ def layeridx(ctx, R):
     found = []
     for e in F.st.events:
         if e[0] == "loop":
-            for b in qp._flat_events(e[3]):
+            for b in qp._uncond_events(e[3]):
                 if b[0] == "setattr" and b[2] == "layerIndex":
                     found.append((key(e[1]), b[1], key(b[3])))
-    ok = any((it == "enumerate(LAYERS)" and tgt == "elem(elem(LAYERS))" and val == "idx(LAYERS)") or (it == "range(len(LAYERS))" and tgt.startswith("elem(LAYERS[") and val.startswith("elem(range")) for it, tgt, val in found)
+            for b in qp._flat_events(e[3]):
+                if b[0] == "setattr" and b[2] == "layerIndex" and (key(e[1]), b[1], key(b[3])) not in found:
+                    found.append((key(e[1]), b[1], key(b[3]), "conditional"))
+    ok = any((it == "enumerate(LAYERS)" and tgt == "elem(elem(LAYERS))" and val == "idx(LAYERS)") or (it == "range(len(LAYERS))" and tgt.startswith("elem(LAYERS[") and val.startswith("elem(range")) for it, tgt, val in [x for x in found if len(x) == 3])
     R.check(ok, "C04.LAYERIDX", "Force.compute|layerIndex", where(f), "every node of layers[k] gets layerIndex k", "Force.compute does not assign node.layerIndex = k for every node of every layer k (found %s): the drawing puts labels of farther layers into the first band" % found)
     # order: before the layer's removeOverlap is irrelevant; but it must cover all nodes: inner loop over the whole layer
     lay = F.st.heap.get(("self", "layers"))
@@ -774,4 +777,11 @@ def state_rule(ctx, R):
     })
 
 
-RULES = [reqwidth, single, distribute_rule, stubchain_instance, stubchain, stubattrs, capacity, conserve, optflow, defaults, layeridx, reset, state_rule]
+def _optsmerge(ctx, R):
+    from .c11 import opts_merge
+    return opts_merge(ctx, R)
+
+
+_optsmerge.rule_id = "GEN.OPTS-MERGE"
+
+RULES = [_optsmerge, reqwidth, single, distribute_rule, stubchain_instance, stubchain, stubattrs, capacity, conserve, optflow, defaults, layeridx, reset, state_rule]
